@@ -38,8 +38,13 @@ def check(ctx, text, opts, meta, trigger=None):
     case = {'text': text, 'options': opts}
     try:
         out = sqlparse.format(text, **dict(opts))
-    except SQLParseError:
+    except SQLParseError as exc:
+        # a grammar script of modest depth with valid options: format() has
+        # no reason to refuse it, and the property is about its output
         rec.count('sqlparseerror')
+        rec.violation('format-refused', case, 'format() raised SQLParseError '
+                      '(%s) for a grammar script and valid options %r'
+                      % (exc, opts), key=('refused', str(exc)[:30]))
         return
     except Exception:
         rec.count('exception_(C07)')
